@@ -1,7 +1,11 @@
 (* Correspondence for C12: runs the model of src/checkpoint.rs (Ckpt/Bincode.v, Ckpt/Store.v) on
    the cases harness/src/bin/c12.rs ran on the real CheckpointManager, and decides agreement and
    the property instance inside Coq. The property instances are evaluated on the OBSERVED outcome
-   with reference functions written independently of the model (ref_* below). *)
+   with reference functions written independently of the model (ref_* below). The model's H is
+   `sha256` (Ckpt/Sha256.v: the streaming hasher compute_checksum drives); the reference is the
+   FIPS one-shot `sha256_spec` rendered by `ref_hex`. Nothing on the expected side comes from Rust:
+   the table of real compute_checksum values in rt / load cases is itself CHECKED against the
+   model. *)
 From Coq Require Import List ZArith Bool String Ascii.
 From Coq Require DecimalString.
 From Coq Require Import Uint63.
@@ -275,7 +279,12 @@ Definition check_sum (input out : J) : verdict :=
       match jbytes j1, jbytes j2 with
       | Some h1, Some h2 =>
           let m := compute_checksum sha256 d in
-          let r := ref_hex (sha256_spec d) in
+          (* short inputs: the reference is the Z-word instance of the FIPS model (the one the
+             concrete theorems of Props/C12.v speak about), so the two word instances are compared
+             with each other and with the real code on every such case; long inputs: the
+             machine-integer instance in its one-shot formulation *)
+          let r := if Nat.leb (List.length d) 130 then ref_hex (sha256_spec_z d)
+                   else ref_hex (sha256_spec d) in
           ok_verdict (bytes_eqb h1 m && bytes_eqb h2 m) (bytes_eqb h1 r && bytes_eqb h2 r)
       | _, _ => malformed
       end
